@@ -185,6 +185,7 @@ func titleCase(i int) Case {
 // ---- random / mutated sequences over the full vocabulary -------------------
 
 var nameSegs = []string{"d", "s", "f", "x", "o", "e", "h", "y", "new", "outdir", "victim", "sub", "up", "in"}
+
 // tails name existing objects outside the working directory and, as often, objects that do NOT exist yet
 // (a new file next to the working directory, a new file in an existing outside directory): a link to
 // those dangles, and whatever is written through it is a creation.
